@@ -13,6 +13,7 @@ import ClvmProofs.Lemmas.Serde2026Magic
 import ClvmProofs.Lemmas.Serde2026MagicBr
 import ClvmProofs.Lemmas.Serde2026Len
 import ClvmProofs.Lemmas.Serde2026Wire
+import ClvmProofs.Lemmas.InternInv
 
 namespace Clvm.Props.C20
 open Clvm Clvm.Serde2026
@@ -112,5 +113,69 @@ theorem len_eq_consumed (allocCap : Nat) (blob : Bytes) (maxAtomLen : Nat) (stri
   · rename_i t' rest c hd
     cases h
     exact Serde2026.len_eq_consumed hlen hd
+
+/-! ### round trip -/
+
+/-- The C20 round-trip statement at full strength (every well-formed source DAG, every level, both
+modes, every `max_atom_len` that admits the tree's atoms and can be allocated; the caller's allocator
+is a fresh `Allocator::new()`).  **Not proved in full**: see `de_ser_partial`. -/
+def RoundTrip : Prop :=
+  ∀ (d : Intern.Dag) (root level : Nat) (strict : Bool) (allocCap maxAtomLen : Nat) (blob : Bytes),
+    d.WF → root < d.size → serialize2026 d root level = .ok blob →
+    (∀ b : Bytes, Intern.Subtree (.atom b) (Intern.denote d root) → b.length ≤ maxAtomLen) → maxAtomLen ≤ allocCap →
+    deserialize2026 allocCap blob maxAtomLen strict = .ok (Intern.denote d root)
+
+/-- … and for the length probe (`serialized_length_serde_2026` of a blob followed by anything). -/
+def LenOfSer : Prop :=
+  ∀ (d : Intern.Dag) (root level : Nat) (strict : Bool) (blob rest : Bytes),
+    d.WF → root < d.size → serialize2026 d root level = .ok blob →
+    serializedLength2026 (blob ++ rest) (2 ^ 64 - 1) strict = .ok blob.length
+
+/-- **Round trip, wire level** (strict and lenient, trailing bytes untouched): a body written by the
+serializer's writers (`write_varint` counts, `write_atom_table`'s group loop, the instruction loop)
+from *any* group list of the shape the serializer produces and *any* instruction list is decoded into
+exactly what executing that instruction list over the table's atoms yields (`execList`, the decoder's
+`match inst` folded over the list), and the reader stops exactly at the trailing bytes.
+
+Proved from C21 `read_write`.  What is missing for `RoundTrip`: that the instruction list produced by
+`emit_instructions` for the output of `intern_tree`, executed over the atom table in `sort_atoms`
+order, ends with the stack `[denote d root]` (C24 `intern_preserves` supplies the tree; the sort being a
+permutation and the emit/execute simulation are not proved; they are exercised by the SER/DE streams
+and the `serde2026_roundtrip` oracle). -/
+theorem de_ser_partial (allocCap maxAtomLen : Nat) (strict : Bool) (ctr : Intern.Counters) (rest : Bytes)
+    (groups : List (Nat × List Bytes)) (is : List Int) (cg tbl ci ib : Bytes)
+    (hok : ∀ g ∈ groups, GroupOK maxAtomLen allocCap g)
+    (h1 : wv (groups.length : Int) = .ok cg) (h2 : writeGroups groups = .ok tbl)
+    (h3 : wv (is.length : Int) = .ok ci) (h4 : writeInstructions is = .ok ib) (hne : is ≠ [])
+    (hroom : Room ctr (groupBytes groups) (groupAtomCount groups)) :
+    deserializeFromStream allocCap ctr (magic ++ (cg ++ tbl ++ ci ++ ib) ++ rest) maxAtomLen strict =
+      match execList (groups.flatMap (·.2)) is
+          { ctr := bumpAtoms ctr (groupBytes groups) (groupAtomCount groups), pairs := [], stack := [] } with
+      | .error e => .error e
+      | .ok s => finish rest s :=
+  deserialize_written allocCap maxAtomLen strict ctr rest groups is cg tbl ci ib hok h1 h2 h3 h4 hne hroom
+
+/-- **Length of a written blob, wire level**: under the same hypotheses, whenever that decode succeeds
+the probe applied to the blob followed by arbitrary bytes returns the blob's length. -/
+theorem len_ser_partial (allocCap maxAtomLen : Nat) (strict : Bool) (ctr c' : Intern.Counters) (rest : Bytes)
+    (groups : List (Nat × List Bytes)) (is : List Int) (cg tbl ci ib : Bytes) (t : Tree)
+    (hok : ∀ g ∈ groups, GroupOK maxAtomLen allocCap g)
+    (h1 : wv (groups.length : Int) = .ok cg) (h2 : writeGroups groups = .ok tbl)
+    (h3 : wv (is.length : Int) = .ok ci) (h4 : writeInstructions is = .ok ib) (hne : is ≠ [])
+    (hroom : Room ctr (groupBytes groups) (groupAtomCount groups))
+    (hlen : (magic ++ (cg ++ tbl ++ ci ++ ib) ++ rest).length < 2 ^ 64)
+    (hdec : (match execList (groups.flatMap (·.2)) is
+          { ctr := bumpAtoms ctr (groupBytes groups) (groupAtomCount groups), pairs := [], stack := [] } with
+      | .error e => (.error e : Except Err (Tree × Bytes × Intern.Counters))
+      | .ok s => finish rest s) = .ok (t, rest, c')) :
+    serializedLength2026 (magic ++ (cg ++ tbl ++ ci ++ ib) ++ rest) maxAtomLen strict
+      = .ok (magic ++ (cg ++ tbl ++ ci ++ ib)).length := by
+  have hd := de_ser_partial allocCap maxAtomLen strict ctr rest groups is cg tbl ci ib hok h1 h2 h3 h4 hne hroom
+  rw [hdec] at hd
+  have := Serde2026.len_eq_consumed hlen hd
+  rw [this]
+  congr 1
+  simp only [List.length_append]
+  omega
 
 end Clvm.Props.C20
